@@ -328,6 +328,7 @@ async def drive_real(t, mode, pidx, orders, only_features=None, scenarios=(None,
     from pyatv import interface
     from pyatv.const import FeatureName, FeatureState
     c01.quiet()
+    c01.string_kinds()          # the local files used as argument values exist
     log = []
     prof = PROFILES[pidx]
     units, cleanup = await profile_units(prof)
@@ -346,7 +347,7 @@ async def drive_real(t, mode, pidx, orders, only_features=None, scenarios=(None,
                 else:
                     swap_class(inst, k, p, k.__name__, log)
             off[u["id"]] = await offline(sd, ifs)
-        label = {u["id"]: "%s>%s" % (u["src"], u["proto"]) for u in units}
+        label_ = {u["id"]: "%s>%s" % (u["src"], u["proto"]) for u in units}
         for order in orders:
             atv = await c01.build_facade([off[i] for i in order])
             protos = list(dict.fromkeys(u["proto"] for i in order for u in units if u["id"] == i))
@@ -365,18 +366,49 @@ async def drive_real(t, mode, pidx, orders, only_features=None, scenarios=(None,
                                 refused.append("%s:%s" % (i, type(ex2).__name__))
                 tok = (lambda _t=toks: [x() for x in _t]) if toks else None
                 gate = atv.features.in_state(FeatureState.Available, FeatureName.PlayUrl)
+                # every reporting entry point of interface.Features
+                eps = {}
+                for label, call in (("all_features()", lambda: atv.features.all_features()),
+                                    ("all_features(include_unsupported=True)", lambda: atv.features.all_features(include_unsupported=True))):
+                    try:
+                        eps[label] = {k.name: v.state.name for k, v in call().items()}
+                    except Exception as ex:  # noqa  an observation
+                        eps[label] = "raised " + type(ex).__name__
                 for f in t["features"]:
                     if only_features and f["name"] not in only_features:
                         continue
+                    fn = getattr(FeatureName, f["name"])
                     del log[:]
-                    info = atv.features.get_feature(getattr(FeatureName, f["name"]))
+                    info = atv.features.get_feature(fn)
                     asked = [e[0] for e in log if e[1] == "Features"]
-                    rec = {"profile": prof[0], "pidx": pidx, "order": order, "added": [label[i] for i in order],
+                    g = info.state.name
+                    other = {}
+                    a0, a1 = eps["all_features()"], eps["all_features(include_unsupported=True)"]
+                    other["all_features()"] = a0 if isinstance(a0, str) else a0.get(f["name"], "Unsupported")
+                    other["all_features(include_unsupported=True)"] = a1 if isinstance(a1, str) else a1.get(f["name"], "MISSING")
+                    for st in FeatureState:
+                        try:
+                            if atv.features.in_state(st, fn) != (st.name == g):
+                                other["in_state(%s)" % st.name] = st.name if st.name != g else "not " + g
+                            if atv.features.in_state([st], fn) != (st.name == g):
+                                other["in_state([%s])" % st.name] = st.name if st.name != g else "not " + g
+                        except Exception as ex:  # noqa
+                            other["in_state(%s)" % st.name] = "raised " + type(ex).__name__
+                    disagree = {k: v for k, v in other.items() if v != g}
+                    # the feature counts as reported if ANY entry point reports it in a state other than Unsupported
+                    via, eff_state = "get_feature", g
+                    if g == "Unsupported":
+                        for k, v in disagree.items():
+                            if v in [x.name for x in FeatureState] and v != "Unsupported":
+                                via, eff_state = k, v
+                                break
+                    rec = {"profile": prof[0], "pidx": pidx, "order": order, "added": [label_[i] for i in order],
                            "holder": [sc[0], list(sc[1])] if sc else None, "takeover_refused": refused,
-                           "feature": f["name"], "index": f["index"], "state": info.state.name,
+                           "feature": f["name"], "index": f["index"], "state": eff_state, "get_feature": g, "reported_via": via,
+                           "entry_points_disagree": disagree,
                            "asked": asked, "gate": gate, "calls": []}
                     out.append(rec)
-                    if info.state == FeatureState.Unsupported:
+                    if eff_state == "Unsupported":
                         continue
                     # every member the reported feature stands for is INVOKED through the device object, with
                     # every variation of its enum/bool/number arguments; it must reach an implementation
@@ -545,8 +577,9 @@ def judge(rec):
     the facade / relayer is the violation.  Returns [(key, what, call)]."""
     bad = []
     for c in rec["calls"]:
-        where = "device profile %s, SetupData added %s, takeover %s: features reports %s as %s; arguments %s" % (
-            rec["profile"], rec["added"], c["holder"], rec["feature"], rec["state"], c.get("arguments") or "default")
+        where = "device profile %s, SetupData added %s, takeover %s: features.%s reports %s as %s; arguments %s" % (
+            rec["profile"], rec["added"], c["holder"], rec.get("reported_via", "get_feature"), rec["feature"], rec["state"],
+            c.get("arguments") or "default")
         if c["exc"] == "NotSupportedError" and c["called"]:
             bad.append(("C13:invoke:not-supported:%s" % rec["feature"],
                         "%s; %s.%s was relayed to %s, whose implementation was entered, but the call failed with NotSupportedError (takeovers requested: %s)"
@@ -633,7 +666,8 @@ def run(ctx):
                 "recording subclasses with the same override table); orders = all 31 sets of configured services (in the "
                 "order pyatv.connect adds them, or shuffled) + random sub-lists of the yielded SetupData with duplicates; "
                 "quick tier: complete for one profile per distinct table set, 5 sampled orders for the others; x every "
-                "FeatureName: answer of features.get_feature, and every member of every reported feature called through the "
+                "FeatureName: answer of features.get_feature - and of all_features() with both values of include_unsupported and "
+                "in_state(state | [state], name) for every state, which must all agree with it -, and every member of every reported feature called through the "
                 "device object; once with the real Features objects, once with Features stubs reporting everything "
                 "Available (worst case of the dynamic states); (a2) per profile, sets of configured services assembled the way "
                 "pyatv.connect does (one configuration, core.takeover = partial(atv.takeover, protocol)), Stream members running "
@@ -654,6 +688,7 @@ def run(ctx):
             ctx.violation(key, what, dict(r, call=call))
     # ---------------------------------------------------------------- (a) real objects
     fcases, fmeta, icases, imeta = [], [], [], []
+    ndis = 0
     try:
         discovered = vloop.run(discover_takeovers)
     except Exception:  # noqa
@@ -688,13 +723,19 @@ def run(ctx):
                     ctx.violation(key, what, {"kind": "real", "mode": mode, "profile": rec["profile"], "added": rec["added"],
                                               "holder": call["holder"], "arguments": call.get("arguments") or {},
                                               "feature": rec["feature"], "state": rec["state"], "call": call})
-                obs = fres_of(rec["asked"], rec["state"])
+                obs = fres_of(rec["asked"], rec.get("get_feature", rec["state"]))
+                if rec.get("entry_points_disagree"):
+                    ctx.count("features-entry-points-disagree")
+                    if ndis < 5:
+                        ctx.tie_broken("correspondence:features-entry-points-disagree", json.dumps(
+                            {k: rec[k] for k in ("profile", "added", "holder", "feature", "get_feature", "entry_points_disagree")}))
+                    ndis += 1
                 if obs is None:
                     ctx.tie_broken("correspondence:features-unexpected-observation", json.dumps(rec))
                     continue
                 ids = "[" + "; ".join(str(i) for i in rec["order"]) + "]"
                 fcases.append("(%d, %s, %d, %s)" % (pidx, ids, rec["index"], obs))
-                if mode == "worst" and rec["asked"] and rec["state"] != "Available":
+                if mode == "worst" and rec["asked"] and rec.get("get_feature", rec["state"]) != "Available":
                     ctx.tie_broken("correspondence:worst-case-stub", json.dumps(rec))
                 for c in rec["calls"]:
                     cr = c01.coq_callres(c["called"], c["exc"])
